@@ -57,11 +57,11 @@ def init_tree(name, pristine=False, p=None, bystander=False):
         for op in WARM:
             cls, _ = O.run(store, op, c)
             if cls != "ok":
-                raise common.HarnessError("warm-up %r failed: %s" % (op, cls))
+                raise common.SetupFailure("warm-up %r failed: %s" % (op, cls))
     for op in tuple(INIT[name]) + ((("store", "p3", "B", None), ("store_meta", "p3", None, "v0")) if bystander else ()):
         cls, _ = O.run(store, op, c)
         if cls != "ok":
-            raise common.HarnessError("initial history %r failed: %s" % (op, cls))
+            raise common.SetupFailure("initial history %r failed: %s" % (op, cls))
     return common.snapshot(root)
 
 
@@ -221,10 +221,15 @@ def run_job(spec):
                 "crash_images": n_images, "image_violations": image_violations,
                 "step_violations": [(v, ch) for v, ch in r["step_violations"][:20]],
                 "n_step_violations": len(r["step_violations"])}
+    except common.SetupFailure as e:
+        return {"name": spec["name"], "spec": spec, "setup_failure": str(e)}
     except common.HarnessError as e:
         return {"name": spec["name"], "spec": spec, "harness_error": str(e)}
     except Exception:  # noqa: BLE001
-        return {"name": spec["name"], "spec": spec, "harness_error": traceback.format_exc()[-1500:]}
+        tb = traceback.format_exc()
+        if (common.REPO + "/src/") in tb:
+            return {"name": spec["name"], "spec": spec, "setup_failure": "exception inside the package: " + tb[-600:]}
+        return {"name": spec["name"], "spec": spec, "harness_error": tb[-1500:]}
 
 
 def liveness_verdict(term):
